@@ -55,12 +55,37 @@ var trapAllow = map[string]bool{
 }
 
 func (m *Machine) trap(name string, fn *ssa.Function, args []value) value {
-	if m.path != nil && m.path.trapHandler != nil {
+	if m.path == nil || m.path.res == nil || m.path.solver == nil {
+		panic(unsupported("trap: real-OS function reached during init: " + name))
+	}
+	if m.path.trapHandler != nil {
 		if r, ok := m.path.trapHandler(m, name, fn, args); ok {
 			return r
 		}
 	}
-	panic(unsupported("trap: real-OS function reached: " + name))
+	// Record and continue with zero results, so that the harness's own
+	// (natively confirmable) assertions can expose the bypass.
+	note := "trap: real-OS function reached: " + name
+	seen := false
+	for _, s := range m.path.res.Traps {
+		if s == note {
+			seen = true
+		}
+	}
+	if !seen {
+		m.path.res.Traps = append(m.path.res.Traps, note)
+	}
+	if fn == nil {
+		return nil
+	}
+	res := fn.Signature.Results()
+	switch res.Len() {
+	case 0:
+		return nil
+	case 1:
+		return zero(res.At(0).Type())
+	}
+	return zero(res)
 }
 
 var externals map[string]externalFn
